@@ -2,7 +2,7 @@ SPECIFICATION Spec
 CONSTANTS
   Cols = 2
   MaxRows = 3
-  MaxSteps = 5
+  MaxSteps = 4
 PROPERTIES WriteFrame ResizeKeeps RejectFrame
 VIEW View
 ACTION_CONSTRAINT Emit
